@@ -70,6 +70,11 @@ class Env:
     def assume(self, *cs):
         self.constraints.extend(cs)
 
+    def cell(self, src, col, row):
+        """(value var, null term) of a source cell"""
+        t = int(self.sources[src]["frame"][col].iloc[row])
+        return self.tags[t][4], self.tags[t][5]
+
     # ---- conversion of tagged pandas literals
     def has_tags(self, obj):
         try:
@@ -240,9 +245,15 @@ class Interp:
         self.memo[key] = val
         return val
 
-    def lit(self, x):
-        if isinstance(x, (pd.DataFrame, pd.Series)) and self.env.has_tags(x):
-            return self.env.convert(x)
+    def lit(self, x, positional=True):
+        if isinstance(x, (pd.DataFrame, pd.Series)):
+            if self.env.has_tags(x):
+                return self.env.convert(x)
+            if positional and len(x) == 0:
+                # an empty partition of a source (or an empty meta used as data): zero slots
+                from .frame import _from_empty_pandas
+
+                return _from_empty_pandas(x)
         return x
 
     def ev(self, t):
@@ -254,7 +265,7 @@ class Interp:
                 kw = self.ev(args[2]) if len(args) > 2 else {}
                 if not isinstance(kw, dict):
                     kw = dict(kw)
-                return self.call(fn, list(a), {k: self.lit(v) for k, v in kw.items()})
+                return self.call(fn, list(a), {k: self.lit(v, positional=False) for k, v in kw.items()})
             return self.call(f, [self.ev(a) for a in args], {})
         if type(t) is list:
             return [self.ev(x) for x in t]
